@@ -406,15 +406,41 @@ func closeOnExecAllFds() error {
 }
 
 func maskPath(path string) error {
-	// bind mount /dev/null if it is file
-	if err := syscall.Mount("/dev/null", path, "", syscall.MS_BIND, ""); err != nil && !errors.Is(err, os.ErrNotExist) {
-		if errors.Is(err, syscall.ENOTDIR) {
-			// otherwise, mount tmpfs to mask it
-			return syscall.Mount("tmpfs", path, "tmpfs", syscall.MS_RDONLY, "")
-		}
+	// what the mask is made of is decided by the path itself, not by the way a mount attempt fails: a missing
+	// /dev/null must not be taken for a missing path
+	fi, err := os.Stat(path)
+	if errors.Is(err, os.ErrNotExist) {
+		return nil
+	}
+	if err != nil {
 		return fmt.Errorf("mask path: %w", err)
 	}
+	if fi.IsDir() {
+		// mount tmpfs to mask a directory
+		return syscall.Mount("tmpfs", path, "tmpfs", syscall.MS_RDONLY, "")
+	}
+	// bind mount /dev/null if it is file
+	err = syscall.Mount("/dev/null", path, "", syscall.MS_BIND, "")
+	if errors.Is(err, os.ErrNotExist) {
+		// the container has no /dev/null: an empty file of the (still writable) root does as well
+		err = maskWithEmptyFile(path)
+	}
+	if err != nil {
+		return fmt.Errorf("mask path: %s: %w", path, err)
+	}
 	return nil
+}
+
+// maskWithEmptyFile binds an empty read-only file over path; the file loses its name again, the mount keeps it
+func maskWithEmptyFile(path string) error {
+	const empty = "/.empty-mask"
+	f, err := os.OpenFile(empty, os.O_CREATE|os.O_RDONLY, 0444)
+	if err != nil {
+		return err
+	}
+	f.Close()
+	defer os.Remove(empty)
+	return syscall.Mount(empty, path, "", syscall.MS_BIND, "")
 }
 
 func ignoreSignals() {
